@@ -3,14 +3,18 @@
 import glob, json, os, re, sys
 ROOT = os.path.dirname(os.path.dirname(os.path.abspath(__file__)))
 sys.path.insert(0, ROOT)
+ENABLED = set(json.load(open(os.path.join(ROOT, "tools", "enabled.json"))))
 props = [json.loads(l) for l in open(os.path.join(ROOT, "properties.jsonl"))]
 META = json.load(open(os.path.join(ROOT, "tools", "manifest_meta.json")))
+for f in sorted(glob.glob(os.path.join(ROOT, "checks", "c*.meta.json"))):
+    pid = os.path.basename(f).split(".")[0].upper()
+    META.setdefault(pid, {}).update(json.load(open(f)))
 checks, na = [], []
 for p in props:
     pid = p["id"]
     mods = glob.glob(os.path.join(ROOT, "checks", f"{pid.lower()}_*.py"))
     m = META.get(pid, {})
-    if mods and not m.get("not_applicable"):
+    if mods and not m.get("not_applicable") and m.get("technique") and pid in ENABLED:
         checks.append({
             "property_id": pid,
             "quick_cmd": f"/venv/bin/python vcheck.py {pid} --tier quick",
